@@ -420,9 +420,17 @@ fn walk(rec: &mut Rec, rng: &mut Rng) {
             }
         };
         history.push(desc.clone());
+        // this property's own operations are op 0,1 (add_/sub_), 7 (± Time) and 8 (± Duration); offset
+        // changes (C10), setters/clears (C09/C15) and the text round trip (C12) only move the state: the
+        // model is re-synchronised from what the library reports and only "still a time of day" is judged
+        let own = matches!(op, 0 | 1 | 7 | 8);
         let opname: String = desc.split('(').next().unwrap_or("").trim().to_string();
         let sigop = if opname.starts_with('+') || opname.starts_with('-') { "operator".to_string() } else { opname };
         match (result, next_model) {
+            (Err(_), _) if !own => {
+                rec.bin("walk/mover-panicked(other-property)");
+                return;
+            }
             (Err(p), _) => {
                 rec.violation(format!("C08|walk|{}|panic|{},{}", sigop, p.class, p.site()), || json!({"history": history, "model_before": format!("{:?}", model), "panic": p.to_json()}));
                 return;
@@ -430,9 +438,25 @@ fn walk(rec: &mut Rec, rng: &mut Rng) {
             (Ok(None), None) => {
                 rec.bin("walk/refused-invalid-set");
             }
+            (Ok(None), Some(_)) if !own => {
+                rec.bin("walk/mover-refused(other-property)");
+            }
             (Ok(None), Some(nm)) => {
                 rec.violation(format!("C08|walk|{}|refused-valid", sigop), || json!({"history": history, "model_before": format!("{:?}", model), "model_after": format!("{:?}", nm)}));
                 return;
+            }
+            (Ok(Some(nt)), None) if !own => {
+                // a setter accepted what the model refuses (C15's claim): continue from what it returned
+                let n = trap(|| nt.as_nanos()).unwrap_or(u64::MAX);
+                if n >= DN {
+                    rec.violation(format!("C08|walk|{}|as_nanos>=24h", sigop), || json!({"history": history, "as_nanos": n}));
+                    return;
+                }
+                match time_offset_secs(&nt) {
+                    Some(o) => model = TModel { n, off: o },
+                    None => return,
+                }
+                t = nt;
             }
             (Ok(Some(nt)), None) => {
                 rec.violation(format!("C08|walk|{}|accepted-invalid", sigop), || json!({"history": history, "model_before": format!("{:?}", model), "observed_as_nanos": nt.as_nanos()}));
@@ -444,6 +468,15 @@ fn walk(rec: &mut Rec, rng: &mut Rng) {
                 if n >= DN {
                     rec.violation(format!("C08|walk|{}|as_nanos>=24h", sigop), || json!({"history": history, "as_nanos": n, "model_after": format!("{:?}", nm)}));
                     return;
+                }
+                if !own {
+                    match o {
+                        Some(off) => model = TModel { n, off },
+                        None => return,
+                    }
+                    t = nt;
+                    rec.bin("walk/step-ok");
+                    continue;
                 }
                 if n != nm.n || o != Some(nm.off) {
                     rec.violation(format!("C08|walk|{}|diverges-from-model", sigop), || json!({"history": history, "observed": {"as_nanos": n, "offset": format!("{:?}", o)}, "model_after": format!("{:?}", nm), "model_before": format!("{:?}", model)}));
